@@ -55,3 +55,9 @@ mod kc07 {
 mod kc15 {
     include!(concat!(env!("KOGE29_VERIF_DIR"), "/kani/h_c15.rs"));
 }
+
+#[cfg(all(test, not(kani)))]
+#[allow(dead_code, unused_imports)]
+mod native {
+    include!(concat!(env!("KOGE29_VERIF_DIR"), "/kani/native.rs"));
+}
